@@ -313,6 +313,155 @@ def replay_sched(pid, path):
     return 0
 
 
+# --------------------------------------------------------------------- constructors (C18)
+
+def regen(tool, name):
+    """Run a translator into coq/Gen/<name>.v; fall back to the committed snapshot when the source
+    can no longer be parsed (a harmless rewrite): the behavioural correspondence then decides alone."""
+    out = os.path.join(common.COQ, "Gen", name + ".v")
+    snap = os.path.join(common.COQ, "Gen", name + ".snapshot")
+    p = common.run([sys.executable, os.path.join(VERIF, "tools", tool), out], check=False)
+    last = p.stdout.strip().split("\n")[-1] if p.stdout.strip() else "parse-failed"
+    if p.returncode != 0:
+        if os.path.exists(snap) and (not os.path.exists(out) or open(out).read() != open(snap).read()):
+            open(out, "w").write(open(snap).read())
+        return "parse-failed: " + last
+    if os.path.exists(snap) and open(snap).read() != open(out).read():
+        return "regenerated-changed"
+    return "regenerated-identical"
+
+
+def ctor_check(pid, tier, seed, t0):
+    import re
+    tstatus = regen("translate_facts.py", "Facts")
+    proof = check_props(pid)
+    binname = "ctor" if tier == "quick" else "ctor_full"
+    common.run([sys.executable, os.path.join(VERIF, "tools", "gen_ctor.py"), os.path.join(VERIF, "harness", "src", "bin")])
+    err = common.build_harness([binname, "ctor"])
+    if err:
+        raise Infra("constructor harness does not build:\n" + err[-2000:])
+    lines = []
+    for b in sorted({binname, "ctor"}):
+        p = common.run([os.path.join(common.TARGET, "debug", b)], check=False, timeout=600)
+        if p.returncode != 0:
+            raise Infra("constructor harness crashed: " + p.stdout[-1000:])
+        lines += [l for l in p.stdout.split("\n") if l.strip()]
+    lines = sorted(set(lines))
+    cases = []
+    for l in lines:
+        t = l.split()
+        if t[0] == "world":
+            n = int(t[1])
+            reg = list(range(n))
+            if t[2] != "-":
+                reg[int(t[3])] = reg[int(t[2])]
+            cases.append({"kind": "world", "line": l, "ctor": t[4], "reg": reg, "verdict": t[5]})
+        else:
+            cols = [] if t[2] == "-" else [int(x) for x in t[2].split(",")]
+            cases.append({"kind": "batch", "line": l, "cols": cols, "verdict": t[3], "counts": [int(x) for x in t[4:]]})
+    # model, evaluated inside Coq
+    CT = {"new": "CNew", "with_resources": "CWithResources", "default": "CDefault", "deserialize": "CDeserialize"}
+    wd = os.path.join(common.BUILD, "run", "ctor-%s" % tier)
+    os.makedirs(wd, exist_ok=True)
+    with open(os.path.join(wd, "cases.v"), "w") as f:
+        f.write("From Brood Require Import Base Facts Ctor.\n")
+        f.write("Definition w (k : ctor) (r : list nat) : nat := match construct k r with Returned => 1 | Panicked => 0 end.\n")
+        f.write("Definition b (c : list nat) : nat := match batch_new c with Some l => 2 + l | None => 0 end.\n")
+        f.write("Eval vm_compute in [%s].\n" % "; ".join(
+            ("w %s [%s]" % (CT[c["ctor"]], "; ".join(map(str, c["reg"])))) if c["kind"] == "world"
+            else ("b [%s]" % "; ".join(map(str, c["cols"]))) for c in cases))
+    model_err = None
+    model = None
+    ok, log = common.build_coq(["Model/Ctor.vo"])
+    if not ok:
+        model_err = log[-2000:]
+    else:
+        with common.Lock("coq"):
+            p = common.run(["timeout", "600", "coqc", "-noglob", "-Q", common.COQ, "Brood", os.path.join(wd, "cases.v")],
+                           cwd=wd, check=False)
+        m = re.search(r"=\s*\[([^\]]*)\]", p.stdout)
+        if p.returncode != 0 or not m:
+            model_err = p.stdout[-2000:]
+        else:
+            model = [int(x) for x in re.findall(r"\d+", m.group(1))]
+            if len(model) != len(cases):
+                model_err = "model output count mismatch"
+                model = None
+    viol, diverged = [], []
+    for i, c in enumerate(cases):
+        if c["kind"] == "world":
+            dup = len(set(c["reg"])) != len(c["reg"])
+            if dup and c["verdict"] != "panic":
+                viol.append((i, "World::%s returned a world for a registry listing component %d twice (positions %s of %d)"
+                             % (c["ctor"], [x for x in c["reg"] if c["reg"].count(x) > 1][0],
+                                [k for k, x in enumerate(c["reg"]) if c["reg"].count(x) > 1], len(c["reg"]))))
+            if not dup and c["verdict"] != "ok":
+                viol.append((i, "World::%s panicked for a duplicate-free registry of length %d" % (c["ctor"], len(c["reg"]))))
+            if model is not None and (model[i] == 1) != (c["verdict"] == "ok"):
+                diverged.append((i, "model says %s" % ("Returned" if model[i] else "Panicked")))
+        else:
+            ragged = len(set(c["cols"])) > 1
+            if ragged and c["verdict"] != "panic":
+                viol.append((i, "Batch::new accepted columns of lengths %s; extend stored %s" % (c["cols"], c["counts"])))
+            if not ragged:
+                want = c["cols"][0] if c["cols"] else 0
+                if c["verdict"] != "ok":
+                    viol.append((i, "Batch::new panicked on equal column lengths %s" % c["cols"]))
+                elif c["counts"] != [want, want, want]:
+                    viol.append((i, "batch of %d rows: extend returned/stored %s" % (want, c["counts"])))
+            if model is not None:
+                mv = model[i]
+                if (mv == 0) != (c["verdict"] == "panic") or (mv >= 2 and c["verdict"] == "ok" and c["counts"][0] != mv - 2):
+                    diverged.append((i, "model says %s" % ("panic" if mv == 0 else "len %d" % (mv - 2))))
+    rc = 0
+    if viol:
+        i, msg = viol[0]
+        path = write_replay(pid, seed, {"property": pid, "kind": "failing-constructor-call", "message": msg,
+                                        "case": cases[i]["line"], "all": [cases[j]["line"] for j, _ in viol[:20]],
+                                        "how_to_replay": "build/target/debug/%s | grep '%s'" % (binname, cases[i]["line"].rsplit(" ", 1)[0])})
+        print("VIOLATION property=%s replay=%s" % (pid, path))
+        print("  " + msg)
+        rc = 1
+    elif not proof["ok"] or diverged or model_err:
+        what = []
+        if not proof["ok"]:
+            what.append({"theorem_or_file": proof["failed_theorem"], "log": proof["log"][-1500:], "translator": tstatus})
+        if model_err:
+            what.append({"model": "Model/Ctor.v could not be evaluated on the regenerated facts", "log": model_err})
+        if diverged:
+            what.append({"correspondence": "constructor verdicts vs Model/Ctor.v", "first": cases[diverged[0][0]]["line"],
+                         "model": diverged[0][1], "n_diverged": len(diverged)})
+        path = write_replay(pid, seed, {"property": pid, "kind": "no-failing-input-found", "no_longer_checks": what})
+        print("VIOLATION property=%s replay=%s no-failing-input-found" % (pid, path))
+        rc = 1
+    nw = [c for c in cases if c["kind"] == "world"]
+    nb = [c for c in cases if c["kind"] == "batch"]
+    cov = {
+        "obligations": proof["obligations"], "discharged": proof["discharged"],
+        "checker_cmd": "tools/translate_facts.py -> coq/Gen/Facts.v; make -C coq Props/C18.vo && coqc -Q coq Brood coq/Props/C18.v",
+        "trusted_base": TRUSTED_BASE + ["tools/translate_facts.py (structural facts about constructors read off the source)"],
+        "theorems": proof["theorems"], "print_assumptions_closed": proof.get("closed", 0), "axioms": proof["axioms"],
+        "translator": tstatus,
+        "evaluations": len(cases),
+        "distinct_nontrivial": len({(tuple(c["reg"]), c["ctor"]) for c in nw if len(set(c["reg"])) != len(c["reg"])})
+        + len({tuple(c["cols"]) for c in nb if len(c["cols"]) >= 2}),
+        "rule": "every registry of length 2..9 with one type duplicated at a pair of positions (quick: all pairs for lengths <= 5, "
+                "8 pairs for lengths 8 and 9; thorough: all 120) x {new, with_resources, default, deserialize}, plus the "
+                "duplicate-free registry of every length 0..9 as control; every vector of column lengths in {0..3}^k, k = 0..4, "
+                "through Batch::new followed by extend. Non-trivial: a duplicated registry x constructor, or a batch of >= 2 columns.",
+        "samples": [cases[0]["line"], nw[len(nw) // 2]["line"], nb[len(nb) // 2]["line"]],
+        "traces_validated_against_impl": len(cases) - len(diverged),
+        "world_constructor_calls": len(nw), "batch_constructor_calls": len(nb), "exhaustive": tier != "quick",
+        "explanation": "theorems over Model/Ctor.v, whose control structure is regenerated from the source (Gen/Facts.v); every "
+                       "constructor x duplicated registry and every small ragged batch run on the real library and compared with the model",
+    }
+    write_evidence(pid, tier, seed, "proof", cov,
+                   ["TypeId is injective (component types modelled as numbers)",
+                    "the structural facts read by tools/translate_facts.py are what the compiler sees (no macro-generated constructors of World/Batch)"],
+                   time.time() - t0, 1 if rc else 0)
+    return rc
+
+
 # --------------------------------------------------------------------- dispatch
 
 def run_check(pid, tier, seed, t0):
@@ -320,6 +469,8 @@ def run_check(pid, tier, seed, t0):
         return wh_check(pid, tier, seed, t0)
     if pid in ("C07", "C08", "C12"):
         return sched_check(pid, tier, seed, t0)
+    if pid == "C18":
+        return ctor_check(pid, tier, seed, t0)
     raise Infra("no check registered for %s" % pid)
 
 
@@ -328,4 +479,8 @@ def replay(pid, path):
         return replay_wh(pid, path)
     if pid in ("C07", "C08", "C12"):
         return replay_sched(pid, path)
+    if pid == "C18":
+        r = json.load(open(path))
+        print(json.dumps({k: r.get(k) for k in ("message", "case", "how_to_replay", "no_longer_checks")}, indent=1)[:3000])
+        return run_check(pid, "quick", 1, time.time())
     raise Infra("no replay for %s" % pid)
